@@ -429,11 +429,7 @@ class Table(Vector):
 						f"Cannot assign column '{attr}': length {len(value)} != table length {self._length}"
 					)
 				
-				cols = list(self._underlying)
-				value._name = self._underlying[col_idx_indexed]._name  # Preserve original name
-				cols[col_idx_indexed] = value
-				object.__setattr__(self, '_underlying', tuple(cols))
-				object.__setattr__(self, '_column_map', self._build_column_map())
+				self._replace_column(col_idx_indexed, value)
 				return
 			
 			# Regular column lookup by name
@@ -450,13 +446,7 @@ class Table(Vector):
 					)
 				
 				# Replace column (tuples are immutable, so rebuild)
-				cols = list(self._underlying)
-				value._name = self._underlying[col_idx]._name  # Preserve original name
-				cols[col_idx] = value
-				object.__setattr__(self, '_underlying', tuple(cols))
-				
-				# Rebuild column map to reflect any structural changes
-				object.__setattr__(self, '_column_map', self._build_column_map())
+				self._replace_column(col_idx, value)
 				return
 		
 		# Reject arbitrary attribute setting - only allow column updates
@@ -464,6 +454,21 @@ class Table(Vector):
 			f"Cannot set attribute '{attr}' on Table. "
 			f"Column '{attr}' does not exist. Use >>= to add new columns."
 		)
+
+	def _replace_column(self, col_idx, value):
+		"""Replace the column at col_idx with a snapshot of value, keeping the column's name."""
+		from .alias_tracker import _ALIAS_TRACKER
+		# Snapshot: the table owns its columns, the caller keeps its vector (and its name)
+		new_col = value.copy()
+		new_col._name = self._underlying[col_idx]._name  # Preserve original name
+		cols = list(self._underlying)
+		cols[col_idx] = new_col
+		new_tuple = tuple(cols)
+		_ALIAS_TRACKER.unregister(self, id(self._underlying))
+		object.__setattr__(self, '_underlying', new_tuple)
+		_ALIAS_TRACKER.register(self, id(new_tuple))
+		# Rebuild column map to reflect any structural changes
+		object.__setattr__(self, '_column_map', self._build_column_map())
 
 	def rename_column(self, old_name, new_name):
 		"""Rename a column (modifies in place, returns self for chaining)"""
